@@ -94,6 +94,10 @@ EVENTS = ["redef-f", "redef-g", "redef-h", "rebind-G", "mutate-L", "define-u", "
           "define-attribute-on-the-class", "define-attribute-on-the-instance", "define-global-shadowing-a-builtin"]
 
 
+LAST_EVENTS = [EVENTS.index(e) for e in ("query-f", "query-g", "query-clone", "query-wrapper", "rebind-G", "mutate-L", "redef-g", "redef-h", "define-u",
+                                          "define-attribute-on-the-class")]
+
+
 def fresh_versions(st):
     """what a fresh process computes for the current program text"""
     if st.get("htwin"):
@@ -265,7 +269,7 @@ def _history(events, L, warm):
     bounds="all event sequences of length <= L over %d events (redefine f/g/h, restore g's previous edition, re-define g with the same body but a declared dependency, rebind / mutate tracked variables (incl. a list inside a tracked tuple), rebind the plain helper to a textually identical function of another module, rebind a tracked variable to a function / an "
            "arbitrary object, define an undefined "
            "symbol, define an undefined attribute of a tracked instance on its class / on the instance, define a module-level function shadowing a builtin the helper uses, memento<->plain, three kinds of modifier clone, unregistered wrapper, version queries of f/g/clone/wrapper) on the "
-           "program f -> h -> g with globals G, L; L = 3 quick, 4 thorough; version cache warm or cold at the start" % len(EVENTS),
+           "program f -> h -> g with globals G, L; L = 3 quick; thorough: 4 with the fourth event from 10 (the 4 queries, 6 edits); version cache warm or cold at the start" % len(EVENTS),
     variables="choice: e0..e3 (event indices), warm bit",
     tier_args={"quick": {"L": 3}, "thorough": {"L": 4}},
     budget_s={"quick": 170, "thorough": 1800},
@@ -275,7 +279,8 @@ def histories(e0: int, e1: int, e2: int, e3: int, warm: bool, L: int):
     n = len(EVENTS)
     evs = [e0, pick(e1, n), pick(e2, n)]
     if L >= 4:
-        evs.append(pick(e3, n))
+        # the fourth event: the four queries and six edits (a full fourth factor of 26 would not exhaust inside the thorough budget)
+        evs.append(LAST_EVENTS[pick(e3, len(LAST_EVENTS))])
     else:
         assume(e3 == 0)
     w = True if warm else False
